@@ -15,6 +15,7 @@ Known finding K2 (`verbatim-unspellable`): a string with an odd run of backslash
 quote, a newline or its end has no back-quoted spelling (theorem C16.verbatim_spellable_iff); the
 oracle fails for exactly these strings in the verbatim style, anything else is a violation."""
 import json
+import zlib
 import string
 import sys
 import unicodedata
@@ -27,7 +28,7 @@ from yaql.language import exceptions, expressions
 from yaql.language import factory as yfactory
 
 ID = 'C16'
-LEAN_MODULES = ['Yaql.Props.C16', 'Yaql.Props.C16Float', 'Yaql.Props.FloatRound', 'Yaql.Props.C03Lex']
+LEAN_MODULES = ['Yaql.Props.C16', 'Yaql.Props.C16Float', 'Yaql.Props.FloatRound', 'Yaql.Props.C03Lex', 'Yaql.Props.C16Result']
 REQUIRED_THEOREMS = [
     'Yaql.Props.C16.roundtrip_single', 'Yaql.Props.C16.roundtrip_double', 'Yaql.Props.C16.unescaped_self',
     'Yaql.Props.C16.escape_values', 'Yaql.Props.C16.unknown_escape_kept', 'Yaql.Props.C16.verbatim_identity',
@@ -40,6 +41,7 @@ REQUIRED_THEOREMS = [
     'Yaql.Props.FloatRound.roundRat_congr_rat', 'Yaql.Props.FloatRound.roundRat_total',
     'Yaql.Props.C03Lex.nextTok_progress', 'Yaql.Props.C03Lex.lexical_position_inside',
     'Yaql.Props.C03Lex.conversions_total', 'Yaql.Props.C03Lex.lexFrom_step',
+    'Yaql.Props.C16Result.literal_result_fixed',
 ]
 TRUSTED = ["CPython's re engine, Unicode tables (\\w, \\d, int() of a digit), codecs 'unicode-escape', "
            "unicodedata name table: parameters / oracles of the model, read from the "
@@ -301,6 +303,36 @@ def gen_content(rng, style):
     s = ''.join(out)
     # never a lone-surrogate escape here (family 'surr' covers them) and it must scan
     return s
+
+
+SURR_ALPHA = ['\ud83d', '\ud800', '\udbff', '\ude00', '\udc00', '\udfff', '\ud83d', '\ude00',
+              'a', '\\', "'", '"', '`', '\U0001F600', '\U00010000', '\ud7ff', '\ue000', '\uffff', ' ']
+
+
+def gen_cases_surrogates(rng, n, out):
+    """strings holding surrogate code points - lone, in pairs (both orders), in runs, next to astral characters - raw in the
+    three quote styles and with some or all of their characters written as \\uXXXX escapes.  Real code only (a Lean
+    `Char` is a scalar value): a str is a sequence of code points, and the literal spells exactly that sequence."""
+    halves = SURR_ALPHA[:6]
+    strings = [a + b for a in halves for b in halves] + [a + b + c for a in halves[:2] for b in halves[3:5] for c in halves[:4]]
+    strings += ['x' + a + b + 'y' for a in halves for b in halves]
+    for _ in range(n):
+        strings.append(''.join(rng.choice(SURR_ALPHA) for _ in range(rng.choice([1, 2, 2, 3, 3, 4, 6]))))
+    for s_ in dict.fromkeys(strings):
+        for st in 'sdv':
+            if st == 'v' and verbatim_unspellable(s_):
+                continue
+            out.append(case_str(0, s_, st, 'surr-str'))
+        for q in "'\"":
+            parts = []
+            for ch in s_:
+                o = ord(ch)
+                if ch in (q, '\\') or (rng.random() < 0.6 and o < 0x10000):
+                    parts.append('\\' + ch if ch in (q, '\\') else '\\u%04x' % o)
+                else:
+                    parts.append(ch)
+            out.append(dict(fam='surr-str', eng=0, text=q + ''.join(parts) + q, exp=('val', 'QUOTED_STRING', s_), model=False,
+                            src=dict(esc=True)))
 
 
 def gen_cases_strings(rng, engs, n, out):
@@ -657,18 +689,83 @@ def check_expectation(eng, case, real):
     # the literal node evaluated; the whole statement (finalizer included) for every 8th case of the big
     # code-point sweeps and for every case of the other families
     EVALS[0] += 1
-    if case['fam'].startswith('cp-') and EVALS[0] % 8:
+    gate = zlib.crc32(text.encode('utf8', 'surrogatepass'))     # a fixed function of the text: replays and shrinking see the same
+    if case['fam'].startswith('cp-') and gate % 8 and not FORCE_ALL[0]:
         ev = ex(None, shared_context(), eng.engine)
     else:
         ev = st.evaluate(context=shared_context())
     for g, what in ((got, 'Constant.value'), (ev, 'evaluated value')):
         if type(g) is not type(val) or not (lexcfg.same_float(g, val) if isinstance(val, float) else g == val):
             return '%s is %s, the literal spells %s' % (what, short(g), short(val))
+    if kind != 'KEYWORD_STRING' and (FORCE_ALL[0] or not (
+            (case['fam'].startswith('cp-') and gate % CP_GATE[0]) or (case['fam'] in ('str', 'raw') and gate % STR_GATE[0]))):
+        # every form x every route for the short surrogate strings (all ordered pairs of halves are among them), one
+        # (form, route) combination picked by a hash of the text for everything else
+        return check_returned(eng, case, val, everything=FORCE_ALL[0] or case['fam'] == 'surr-raw' or (
+            case['fam'] == 'surr-str' and len(val) <= 2))
     return None
 
 
 def same_typed(g, val):
     return type(g) is type(val) and (lexcfg.same_float(g, val) if isinstance(val, float) else g == val)
+
+
+def same_deep(g, w):
+    """type-strict equality at every depth (lists, dicts incl. their keys, in order)"""
+    if isinstance(w, list):
+        return type(g) is list and len(g) == len(w) and all(same_deep(a, b) for a, b in zip(g, w))
+    if isinstance(w, dict):
+        return type(g) is dict and len(g) == len(w) and all(
+            same_deep(kg, kw) and same_deep(vg, vw) for (kg, vg), (kw, vw) in zip(g.items(), w.items()))
+    return same_typed(g, w)
+
+
+# the literal as the RESULT of an evaluation: alone and nested in lists / dictionaries (as element, value and KEY) ...
+RETURN_FORMS = [('%s', lambda v: v), ('[%s]', lambda v: [v]), ('[[%s], %s]', lambda v: [[v], v]),
+                ('{%s => %s}', lambda v: {v: v}), ('{%s => [%s]}', lambda v: {v: [v]}),
+                ('{k => {%s => %s}}', lambda v: {'k': {v: v}}), ('list(%s, %s)', lambda v: [v, v])]
+# ... obtained through every public way a host gets a finished result
+RETURN_ROUTES = ['statement', 'copy', 'yaql.eval', 'interface']
+RETURNED = {}
+STR_GATE = [1]            # thorough (60000 strings x 3 styles): every 3rd
+CP_GATE = [16]            # of the code-point sweeps every 16th case (thorough: every 64th of 4 M) gets the returned-value check
+FORCE_ALL = [False]        # while shrinking a failing case and in replays: every form through every route
+
+
+def returned_value(eng, route, text):
+    import yaql
+    from yaql import yaql_interface
+    if route == 'statement':
+        return eng.engine(text).evaluate(context=shared_context())
+    if route == 'copy':
+        return eng.engine.copy({'yaql.limitIterators': 100000})(text).evaluate(context=shared_context())
+    if route == 'yaql.eval':
+        return yaql.eval(text)
+    return yaql_interface.YaqlInterface(shared_context(), eng.engine)(text)
+
+
+def check_returned(eng, case, val, everything=False):
+    """the value a host gets back for the literal (standard finaliser, output conversion with its default options), alone
+    and inside containers, must be the value the literal spells - type-strictly, at every depth"""
+    text = case['text']
+    default_table = case['eng'] == 0
+    forms = RETURN_FORMS if default_table and '\n' not in text else RETURN_FORMS[:1]
+    routes = [r for r in RETURN_ROUTES if default_table or r != 'yaql.eval']
+    combos = [(f, r) for f in forms for r in routes]
+    if not everything:
+        combos = [combos[zlib.crc32(text.encode('utf8', 'surrogatepass')) % len(combos)]]
+    for (form, mk), route in combos:
+        t = form % ((text,) * form.count('%s'))
+        want = mk(val)
+        RETURNED[route] = RETURNED.get(route, 0) + 1
+        RETURNED[form] = RETURNED.get(form, 0) + 1
+        try:
+            got = returned_value(eng, route, t)
+        except Exception as e:      # noqa
+            return '%s evaluated through %s raised %s: %s' % (short(t), route, type(e).__name__, str(e)[:80])
+        if not same_deep(got, want):
+            return '%s evaluated through %s returned %s, the literal spells %s' % (short(t), route, short(got), short(want))
+    return None
 
 
 def check_multi(eng, case):
@@ -899,8 +996,14 @@ class Runner:
                     if self.known_seen > 1:
                         continue
                 if 's' in c['src']:
-                    c = shrink_str(eng, c)
-                    msg = check_expectation(eng, c, lexcfg.real_lex(eng.engine, c['text']))
+                    FORCE_ALL[0] = True
+                    try:
+                        c2 = shrink_str(eng, c)
+                        msg2 = check_expectation(eng, c2, lexcfg.real_lex(eng.engine, c2['text']))
+                    finally:
+                        FORCE_ALL[0] = False
+                    if msg2:
+                        c, msg = c2, msg2
                 res.fail('oracle', key, '[%s] text %s: %s' % (c['fam'], short(c['text']), msg), replay_of(engs, c))
             elif c['exp'] is not None and c['fam'] in ('str', 'cp-raw', 'cp-embedded') and c['src'].get('style') == 'v' \
                     and verbatim_unspellable(lexcfg.uncps(c['src']['s'])):
@@ -972,6 +1075,8 @@ class Runner:
 
 def run(env, res):
     tier = env['tier']
+    CP_GATE[0] = 16 if tier == 'quick' else 64
+    STR_GATE[0] = 1 if tier == 'quick' else 3
     rng = common.make_rng(env['seed'], 'C16')
     limit = sys.get_int_max_str_digits()
     hist = {}
@@ -990,6 +1095,7 @@ def run(env, res):
             floatref.replay(env, res, rp)
             return res
         engs = [Eng(rp['engine'])]
+        FORCE_ALL[0] = True
         run_ = Runner(env, res, engs, rng)
         if rp['fam'] == 'next':
             run_.next_offsets([(0, lexcfg.uncps(rp['text']), rp['pos'])])
@@ -1016,7 +1122,8 @@ def run(env, res):
             gen_cases_numbers(rng, 60, None, singles)
             gen_cases_strings(rng, engs, 300, singles)
             gen_cases_multi(rng, 3000 if tier == 'quick' else 40000, singles, c)
-        for gen in (lambda c: gen_cases_strings(rng, engs, n, c),
+        for gen in (lambda c: gen_cases_surrogates(rng, 150 if tier == 'quick' else 3000, c),
+                    lambda c: gen_cases_strings(rng, engs, n, c),
                     lambda c: gen_cases_numbers(rng, 300 if tier == 'quick' else 3000, limit, c),
                     multi,
                     lambda c: gen_cases_words(rng, engs, 1500 if tier == 'quick' else 15000, c),
@@ -1027,6 +1134,7 @@ def run(env, res):
                 run_.process(cases[k:k + 50000])
         run_.next_offsets(run_.nx)
     hist['engines'] = len(engs)
+    hist['literal_as_returned_result'] = dict(RETURNED)
     hist['verbatim_unspellable_strings_seen'] = run_.known_seen
     hist['floatround'] = floatref.run_section(env, res, ID, 500 if env['tier'] == 'quick' else 6000)
     res.extra['histogram'] = dict(families=run_.fam_hist, real_outcomes=run_.out_hist, **hist)
@@ -1049,7 +1157,10 @@ LEVEL_TEXT = ('Lean 4 theorems over an executable model of yaql/language/lexer.p
               'the code by running the compiled model and the real lexer+parser on every BMP code point, sampled astral ones, '
               'all escape shapes, biased strings, big integers, decimals, Unicode words, token soups under default/legacy/custom '
               'operator tables.')
-LEVEL_NOTE = ('partial where the runtime decides: Unicode classes, the \\N{} name table, int()/float() text conversion and the re '
+LEVEL_NOTE = ('round 5: the literal is also compared as the RESULT a host receives (alone and nested in lists / dictionaries incl. keys; '
+              'Statement.evaluate, copy, yaql.eval, YaqlInterface), model side C16Result.literal_result_fixed (output conversion is the '
+              'identity on literal values at every depth); strings with surrogate code points (lone, paired, runs) are real-code only. '
+              'partial where the runtime decides: Unicode classes, the \\N{} name table, int()/float() text conversion and the re '
               'engine are parameters of the model read from the running interpreter; the double of a float literal is computed by '
               'the model (proved correctly rounded) and compared bit for bit with the real Constant.value, with float(Fraction) / '
               'int/int division as the independent second derivation of the oracle. Known finding K2: strings with an odd backslash run before a back quote, a '
